@@ -94,14 +94,16 @@ def tensor_variants(path, clsname, rng):
 def model_variants(path, clsname, rng):
     cls = imp(path, clsname)
     out = []
-    for t, named, hyper in ((1, True, True), (2, True, False), (2, False, False)):
+    # hyperparameter dicts with different key sets (a poorer dict written over a richer one must not keep the extra keys)
+    hyps = [{"lam": 0.5, "k": 3, "burnin": 100, "S0": 2.5}, None, {"lam": 0.25}, {"k": 7, "nu": 4}]   # numeric values (a str value reads back as bytes: HDF5 strings, not asserted)
+    for t, named, hyper in ((1, True, 0), (2, True, 1), (2, False, 1), (1, True, 2), (1, False, 3)):
         p = rng.randrange(1, 5)
         kw = dict(beta=np.array([[rng.randrange(-5, 6) / 2.0 for _ in range(t)]]),
                   u_misc=None if rng.random() < 0.5 else np.array([[rng.randrange(-3, 4) / 4.0 for _ in range(t)] for _ in range(2)]),
                   u_a=np.array([[rng.randrange(-8, 9) / 8.0 for _ in range(t)] for _ in range(p)]),
                   trait=np.array(["yld%d" % k for k in range(t)], dtype=object) if named else None,
                   model_name="mødel-α" if named else None,
-                  hyperparams={"lam": 0.5, "k": 3} if hyper else None)
+                  hyperparams=hyps[hyper])
         if "Dominance" in clsname:
             kw["u_d"] = np.array([[rng.randrange(-8, 9) / 8.0 for _ in range(t)] for _ in range(p)])
         out.append(cls(**kw))
@@ -126,15 +128,16 @@ for _c in ("DenseAdditiveLinearGenomicModel", "DenseAdditiveDominanceLinearGenom
     FAMILIES.append((_c, lambda rng, c=_c: model_variants("pybrops.model.gmod." + c, c, rng)))
 
 
-def hdf5_history(hid, clsname, variants, rng, tmpdir):
+def hdf5_history(hid, clsname, variants, rng, tmpdir, order=None):
     cls = type(variants[0])
     fn = os.path.join(tmpdir, "h%d.h5" % hid)
     locs = [None, "grp", "grp/sub/", "π-grp/"]
     ev = []
     written = []
-    for w in range(rng.randrange(2, 5)):
-        o = variants[rng.randrange(len(variants))]
-        loc = rng.choice(locs[:3] if w < 3 else locs)
+    oneloc = rng.choice(locs)
+    for w in range(rng.randrange(2, 5) if order is None else len(order)):
+        o = variants[rng.randrange(len(variants)) if order is None else order[w]]
+        loc = rng.choice(locs[:3] if w < 3 else locs) if order is None else oneloc
         how = rng.choice(["str", "path", "handle"])
         e = {"op": "write", "loc": str(loc), "obj": proj(o), "how": how, "err": None}
         try:
@@ -490,6 +493,16 @@ def run(ctx):
             for _ in range(6 if thorough else 2):
                 hid += 1
                 hist.append(hdf5_history(hid, clsname, variants, rng, tmpdir))
+            # every variant written over every other one at one location (each ordered pair appears in some chain)
+            nv = len(variants)
+            pairs = [(i, j) for i in range(nv) for j in range(nv) if i != j]
+            rng.shuffle(pairs)
+            chain = []
+            for i, j in pairs if (thorough or nv <= 3) else pairs[:8]:
+                chain += [i, j]
+            for k in range(0, len(chain), 6):
+                hid += 1
+                hist.append(hdf5_history(hid, clsname, variants, rng, tmpdir, order=chain[k:k + 6]))
             for o in variants[:(4 if thorough else 2)]:
                 hid += 1
                 hist.append(copy_history(hid, clsname, o))
